@@ -37,7 +37,7 @@ CHECKS = {
     "C03": hist("TestC03", 6000, 40, 20000, 60,
                 extra_quick=[{"test": "TestClosureC03", "timeout": 600}],
                 essential=["range_nontrivial", "range_bound_absent", "range_reversed", "range_bounds_lcp_gt10", "range_empty_tree"]),
-    "C04": hist("TestC04", 6000, 40, 15000, 60,
+    "C04": hist("TestC04", 6000, 40, 15000, 60, kf_test="TestKF_C04",
                 extra_quick=[{"test": "TestClosureC04", "timeout": 600}],
                 essential=["prefix_proper_subset", "prefix_no_match", "prefix_arg_gt10", "has_node16", "has_node48", "has_node256", "has_long_path"]),
     "C05": hist("TestC05", 4000, 40, 12000, 60,
@@ -65,7 +65,7 @@ CHECKS = {
     "C13": hist("TestC13", 5000, 40, 12000, 60,
                 essential=["arena_spare_calls", "range", "prefix"]),
     "C14": hist("TestC14", 2000, 40, 5000, 60,
-                extra_quick=[{"test": "TestScaleC14", "checks": 1, "shards": 6, "timeout": 900}, {"test": "TestClosureC14", "timeout": 600}],
+                extra_quick=[{"test": "TestScaleC14", "checks": 2, "shards": 6, "timeout": 900}, {"test": "TestClosureC14", "timeout": 600}],
                 extra_thorough=[{"test": "TestScaleC14", "checks": 3, "shards": 8, "timeout": 2400}],
                 essential=["iter_nontrivial_all", "iter_nontrivial_backward", "iter_nontrivial_prefix", "iter_nontrivial_range",
                            "iter_nontrivial_topk", "iter_nontrivial_bottomk"]),
